@@ -465,7 +465,18 @@ class Ctx:
             ps = getattr(st, "per_shard", 200)
             fi = ex.submit(run_lines, impl_cmd, cases, NCPU, st.timeout, "impl", None, ps)
             fm = ex.submit(run_lines, model_cmd, cases, NCPU, st.timeout, "model", None, ps)
-            return fi.result(), fm.result()
+            impl, model = fi.result(), fm.result()
+        # a shard that ran into the overall time limit (HANG: a loaded machine is enough for that) leaves its remaining cases without
+        # an answer: run those again in smaller batches; a case that hangs by itself still hangs when it is run alone
+        for side, cmd in ((impl, impl_cmd), (model, model_cmd)):
+            for _ in range(2):
+                if "HANG" not in side:
+                    break
+                idx = [k for k, r in enumerate(side) if r in ("HANG", "SKIPPED")]
+                again = run_lines(cmd, [cases[k] for k in idx], NCPU, st.timeout, "retry", None, max(1, min(ps, len(idx) // NCPU + 1)))
+                for k, r in zip(idx, again):
+                    side[k] = r
+        return impl, model
 
     def fails_property(self, st, case):
         i, m = self.run_both(st, [case])
